@@ -11,7 +11,7 @@ Mode E1 over programs x inputs.
 import enum
 import itertools
 import json
-from typing import Dict, List, Optional
+from typing import Annotated, Dict, List, Optional
 
 import pydantic
 
@@ -29,7 +29,13 @@ FRAGS = {
     'none': None, 'int': {'type': 'integer'}, 'str': {'type': 'string'}, 'bool': {'type': 'boolean'},
     'arr': {'type': 'array'}, 'null': {'type': 'null'}, 'enum': {'enum': [0, 'x', None]},
     'range': {'type': 'integer', 'minimum': 0, 'maximum': 5},
+    # only meaningful under the dialect named by "$schema" (boolean exclusive bounds: draft-04; numeric ones: draft-06/07; divisibleBy: draft-03)
+    'x4range': {'type': 'integer', 'minimum': 0, 'exclusiveMinimum': True, 'maximum': 6, 'exclusiveMaximum': True},
+    'x7range': {'type': 'integer', 'exclusiveMinimum': 0, 'exclusiveMaximum': 6},
+    'div3': {'type': 'integer', 'divisibleBy': 5},
 }
+DIALECTS = {'draft-03': 'http://json-schema.org/draft-03/schema#', 'draft-04': 'http://json-schema.org/draft-04/schema#',
+            'draft-06': 'http://json-schema.org/draft-06/schema#', 'draft-07': 'http://json-schema.org/draft-07/schema#'}
 VALUES = [0, 5, 6, -1, 1.5, '5', 'x', True, False, None, [1], {}]
 
 
@@ -44,6 +50,19 @@ def conforms(frag, v):
         if not ok:
             return False
     if 'enum' in frag and not any(typed_eq(v, e) for e in frag['enum']):
+        return False
+    num = isinstance(v, (int, float)) and not isinstance(v, bool)
+    if 'divisibleBy' in frag and num and v % frag['divisibleBy'] != 0:
+        return False
+    if frag.get('exclusiveMinimum') is True:
+        if num and v <= frag['minimum']:
+            return False
+    elif 'exclusiveMinimum' in frag and num and v <= frag['exclusiveMinimum']:
+        return False
+    if frag.get('exclusiveMaximum') is True:
+        if num and v >= frag['maximum']:
+            return False
+    elif 'exclusiveMaximum' in frag and num and v >= frag['exclusiveMaximum']:
         return False
     if 'minimum' in frag and isinstance(v, (int, float)) and not isinstance(v, bool) and v < frag['minimum']:
         return False
@@ -103,14 +122,36 @@ def make_fn(sig, log, excluded=None, annotations=None, is_async=False):
             parts.append('*')
         parts.append('%s="INJECTED"' % excluded)
     names = [NAMES[i] for i in range(len(sig))] + ([excluded] if excluded else [])
-    src = '%sdef f(%s):\n    _log.append(dict(%s))\n    return %r\n' % (
-        'async ' if is_async else '', ', '.join(parts), ', '.join('%s=%s' % (n, n) for n in names), RESULT)
-    ns = {'_log': log}
+    mutable_defaults = any(d in ('LIST', 'DICT') for _, d in sig)
+    # the body records what it received and then modifies its mutable arguments IN PLACE (sorting a list, popping a key ...):
+    # whatever the library keeps between calls must not be affected by that
+    src = '%sdef f(%s):\n    _log.append(_copy(dict(%s)))\n%s    return %r\n' % (
+        'async ' if is_async else '', ', '.join(parts), ', '.join('%s=%s' % (n, n) for n in names),
+        '' if mutable_defaults else ''.join('    _mutate(%s)\n' % n for n in names), RESULT)
+    ns = {'_log': log, '_copy': __import__('copy').deepcopy, '_mutate': _mutate}
     if annotations:
         for i, a in enumerate(annotations):
             ns['A%d' % i] = a
     exec(src, ns)
     return ns['f'], src
+
+
+def _mutate(v):
+    if isinstance(v, list):
+        v.append('MUTATED')
+    elif isinstance(v, dict):
+        v['MUTATED'] = 1
+    elif isinstance(v, pydantic.BaseModel):
+        for k in list(type(v).model_fields):
+            try:
+                setattr(v, k, 'MUTATED')
+            except Exception:   # noqa
+                pass
+
+
+def has_mutable(inp):
+    vals = inp if isinstance(inp, list) else list(inp.values())
+    return any(isinstance(v, (list, dict)) for v in vals)
 
 
 def twin_bind(sig, inp):
@@ -153,6 +194,15 @@ def gen_js(ctx):
                 for addl in (None, False):
                     for excl in ((None, 'x') if n <= 1 else (None,)):
                         yield dict(part='js', sig=sig, frags=fr, required=req, addl=addl, excluded=excl)
+    # schemas that declare their dialect with "$schema": keywords mean what that draft says
+    for sig in js_signatures(1):
+        if len(sig) == 1:
+            for dialect, fr in (('draft-04', 'x4range'), ('draft-04', 'range'), ('draft-07', 'x7range'), ('draft-07', 'range'), ('draft-06', 'x7range'),
+                                ('draft-03', 'div3')):
+                for req in ((), (0,)):
+                    if dialect == 'draft-03' and req:
+                        continue          # draft-03 has no "required" array: such a schema would be invalid, not refusing
+                    yield dict(part='js', sig=sig, frags=(fr,), required=req, addl=None, excluded=None, dialect=dialect)
 
 
 def js_inputs(n, quick, excluded):
@@ -178,6 +228,8 @@ def run_js(case, rec):
         schema['required'] = [NAMES[i] for i in case['required']]
     if case['addl'] is False:
         schema['additionalProperties'] = False
+    if case.get('dialect'):
+        schema['$schema'] = DIALECTS[case['dialect']]
     excl = case['excluded']
     obs = []
     for disp in ('sync', 'async'):
@@ -190,14 +242,19 @@ def run_js(case, rec):
         for inp in js_inputs(n, True, excl):
             bound = twin_bind(sig, inp)
             accept = bound is not None and schema_ok(schema, bound)
-            del log[:]
-            try:
-                r = dispatch(d, disp == 'async', json.dumps({'jsonrpc': '2.0', 'id': 1, 'method': 'f', 'params': inp}))
-                resp = json.loads(r[0])
-            except Exception as e:   # noqa
-                resp = {'raised': '%s: %s' % (type(e).__name__, e)}
-            rec.transitions += 1
-            problem = judge(resp, log, accept, bound, sig, excl)
+            problem = None
+            for rep in ((1, 2) if has_mutable(inp) else (1,)):
+                del log[:]
+                try:
+                    r = dispatch(d, disp == 'async', json.dumps({'jsonrpc': '2.0', 'id': 1, 'method': 'f', 'params': inp}))
+                    resp = json.loads(r[0])
+                except Exception as e:   # noqa
+                    resp = {'raised': '%s: %s' % (type(e).__name__, e)}
+                rec.transitions += 1
+                problem = judge(resp, log, accept, bound, sig, excl)
+                if problem:
+                    problem += '' if rep == 1 else ' [the same call made a second time]'
+                    break
             rec.outcomes['js:%s:%s' % ('accept' if accept else ('nobind' if bound is None else 'nonconforming'), 'ok' if not problem else 'BAD')] += 1
             if problem:
                 rec.violation('C14:jsonschema:%s' % problem, dict(case, disp=disp, input=inp, source=src.split('\n')[0], schema=schema),
@@ -261,8 +318,10 @@ ANNS = {
     'strict': Strict,
     'int': int, 'str': str, 'float': float, 'bool': bool, 'optint': Optional[int], 'listint': List[int],
     'dictstrint': Dict[str, int], 'model': Model, 'enum': Color,
+    # constraints carried in Annotated metadata
+    'posint': Annotated[int, pydantic.Field(gt=0)], 'short': Annotated[str, pydantic.StringConstraints(max_length=3)],
 }
-PVALUES = [0, 1, -3, 1.5, 2.0, '1', 'x', 'red', True, None, [1, 2], ['1'], ['x'], {'k': 1}, {'k': 'v'}, {'x': 1}, {'x': '2', 'y': 'z'},
+PVALUES = [0, 1, -3, 1.5, 2.0, '1', 'x', 'red', 'toolong', True, None, [1, 2], ['1'], ['x'], {'k': 1}, {'k': 'v'}, {'x': 1}, {'x': '2', 'y': 'z'},
            {'x': 'bad'}, {}, {'n': 1}, {'n': -1}]
 
 
@@ -336,15 +395,20 @@ def run_pd(case, rec):
                         want_seen[name] = a[1] if case['coerce'] else bound[name]
                     else:
                         want_seen[name] = {'LIST': [7], 'DICT': {'k': 7}, 'NONE': None}.get(sig[i][1], 'D_%s' % name)
-            del log[:]
-            try:
-                r = dispatch(d, disp == 'async', json.dumps({'jsonrpc': '2.0', 'id': 1, 'method': 'f', 'params': inp}))
-                resp = json.loads(r[0])
-            except Exception as e:   # noqa
-                resp = {'raised': '%s: %s' % (type(e).__name__, str(e)[:200])}
-            rec.transitions += 1
-            # the method sees python objects (models, enums): compare by equality, not by JSON typing
-            problem = judge_pd(resp, log, accept, want_seen, excl)
+            problem = None
+            for rep in ((1, 2) if has_mutable(inp) else (1,)):
+                del log[:]
+                try:
+                    r = dispatch(d, disp == 'async', json.dumps({'jsonrpc': '2.0', 'id': 1, 'method': 'f', 'params': inp}))
+                    resp = json.loads(r[0])
+                except Exception as e:   # noqa
+                    resp = {'raised': '%s: %s' % (type(e).__name__, str(e)[:200])}
+                rec.transitions += 1
+                # the method sees python objects (models, enums): compare by equality, not by JSON typing
+                problem = judge_pd(resp, log, accept, want_seen, excl)
+                if problem:
+                    problem += '' if rep == 1 else ' [the same call made a second time]'
+                    break
             rec.outcomes['pd:%s:%s' % ('accept' if accept else ('nobind' if bound is None else 'nonconforming'), 'ok' if not problem else 'BAD')] += 1
             if problem:
                 rec.violation('C14:pydantic:%s' % problem, dict(case, disp=disp, input=inp, source=src.split('\n')[0]),
